@@ -59,6 +59,19 @@ func C15(tier string) int {
 		ops += no
 		desc = append(desc, fmt.Sprintf("%s:L=%d:%d programs", j.parent, j.L, np))
 	}
+	// ---- cache multistore: the programs lifted to two substores with one Write ----
+	ml := 4
+	if tier == "thorough" {
+		ml = 5
+	}
+	mprogs := exploreC15multi(ml, func(prog []string, what string) {
+		mu.Lock()
+		defer mu.Unlock()
+		run.Report("C15|multi|"+strings.Fields(what)[0], fmt.Sprintf("cachemulti program %v: %s", prog, what), map[string]interface{}{"program": prog})
+	})
+	programs += mprogs
+	ops += mprogs * int64(ml)
+	desc = append(desc, fmt.Sprintf("cachemulti(2 substores, nesting<=3):L=%d:%d programs", ml, mprogs))
 	var names []string
 	for _, o := range alpha {
 		names = append(names, o.String())
